@@ -65,16 +65,25 @@ class C12(Machine):
     # ---------------------------------------------------------------- gen
     def gen(self, rng, tier, index):
         grid = gen.gen_grid(rng, 4, 8)
-        model = gen.gen_model(rng)
-        survey = gen.gen_survey(rng, grid, nsrc=(1, 3), nrec=(1, 3),
-                                nfreq=(1, 2))
+        layered = rng.random() < 0.12
+        if layered:
+            # layered (1D) mode: isotropic/VTI, points and dipoles only
+            model = gen.gen_model(rng, cases=['isotropic', 'VTI'])
+            survey = gen.gen_survey(rng, grid, nsrc=(1, 3), nrec=(1, 3),
+                                    nfreq=(1, 2),
+                                    src_kinds=('dipole', 'point'),
+                                    rec_kinds=('e', 'm'))
+        else:
+            model = gen.gen_model(rng)
+            survey = gen.gen_survey(rng, grid, nsrc=(1, 3), nrec=(1, 3),
+                                    nfreq=(1, 2))
         sopts = {'sslsolver': rng.choice([False, 'bicgstab']),
                  'semicoarsening': True, 'linerelaxation': True,
                  'tol': rng.choice([1e-7, 1e-8]), 'maxit': 60, 'verb': 0}
         if rng.random() < 0.5:
             sopts['tol_gradient'] = rng.choice([1e-3, 1e-4, 1e-5])
         gridding, grid2 = 'same', None
-        if rng.random() < 0.2:
+        if rng.random() < 0.2 and not layered:
             gridding = 'input'
             grid2 = gen.gen_grid(rng, 4, 8)
             grid2['origin'] = grid['origin']
@@ -88,8 +97,17 @@ class C12(Machine):
             'recint': rng.choice(['linear', 'linear', 'cubic']),
             'max_workers': rng.choice([1, 1, 2, 3]),
             'backend': rng.choice(['tqdm', 'plain']),
-            'file_dir': rng.random() < 0.25,
+            'file_dir': (not layered) and rng.random() < 0.25,
             'policy': rng.choice(simpool.POLICIES),
+            'layered': layered,
+            # explicit 1D extraction options: a radius derived from the
+            # model at construction time would make "same options" ambiguous
+            # after a model update (as with automatic gridding)
+            'layered_opts': {'method': rng.choice(['cylinder', 'prism',
+                                                   'midpoint', 'source',
+                                                   'receiver']),
+                             'ellipse': {'radius': rng.choice([150.0, 400.0]),
+                                         'factor': 1.2, 'minor': 0.8}},
         }
         nops = rng.randint(3, 12 if tier == 'thorough' else 8)
         ops = [self._gen_op(rng, survey, config) for _ in range(nops)]
@@ -172,6 +190,8 @@ class C12(Machine):
             n = copy.deepcopy(case)
             n['config']['model']['case'] = 'isotropic'
             out.append(n)
+        if c.get('layered'):
+            out.append(var(layered=False))
         if s.get('nan_frac'):
             n = copy.deepcopy(case)
             n['config']['survey']['nan_frac'] = 0.0
@@ -191,7 +211,13 @@ class C12(Machine):
                   solver_opts=dict(cfg['solver_opts']),
                   receiver_interpolation=cfg['recint'],
                   max_workers=max_workers,
-                  tqdm_opts={'disable': True}, name='c12')
+                  tqdm_opts={'disable': True}, name='c12',
+                  layered=cfg.get('layered', False))
+        if cfg.get('layered'):
+            lo = copy.deepcopy(cfg['layered_opts'])
+            if lo['method'] not in ('cylinder', 'prism'):
+                lo.pop('ellipse')
+            kw['layered_opts'] = lo
         if cfg['gridding'] == 'input':
             kw['gridding_opts'] = gen.build_grid(cfg['grid2'])
         if file_dir:
@@ -489,11 +515,16 @@ class C12(Machine):
             return self._fresh(ctx, cfg, v, k)
         if k in ('jvec', 'jtvec'):
             return self._fresh(ctx, cfg, v, k, op['vseed'])
+        if cfg.get('layered'):
+            fresh = self._build(cfg, v, None, 1)      # no fields in 1D mode
+            s, f = srcs[op['s'] % len(srcs)], freqs[op['f'] % len(freqs)]
+            get = fresh.get_efield if k == 'get_efield' else fresh.get_hfield
+            return _outcome(lambda: get(s, f).field.copy())
         base = self._fresh(ctx, cfg, v, 'efields')[1]
         s, f = srcs[op['s'] % len(srcs)], freqs[op['f'] % len(freqs)]
         if k == 'get_efield':
-            return ('ok', base.get_efield(s, f).field.copy())
-        return ('ok', base.get_hfield(s, f).field.copy())
+            return _outcome(lambda: base.get_efield(s, f).field.copy())
+        return _outcome(lambda: base.get_hfield(s, f).field.copy())
 
     def _file(self, ctx, cfg, obj, op):
         import emg3d
